@@ -52,11 +52,20 @@ def main(tier):
     parser_mods = set(syn["monadic"]) | set(syn["dyadic"]) | set(syn["triadic"])
     seen = Counter()
 
+    import vyxal.elements as EL
+
     def key_trace(key, table, nocc, arity):
         tk, tr, err = project.parse_text(key)
+        ctxs = []
+        for pre, post in (("1", ""), ("", "1"), ("a", "a"), ("1", "1"), ("`s`", "`s`")):
+            ctk, _, cerr = project.parse_text(pre + key + post)
+            ctxs.append({"pre": cps(pre), "post": cps(post), "toks": ctk or [],
+                         "err": cerr if (cerr or "").startswith("lex") else ""})
+        run = EL.elements.get(key, (None, -1))[1] if table == "elements" else -1
         return {"op": "key", "key": cps(key), "table": table, "toks": tk or [], "tree": tr or [],
                 "err": err or "", "nocc": nocc, "arity": -1 if arity is None else arity,
-                "inparser": key in parser_mods}
+                "runarity": run if isinstance(run, int) else -1,
+                "inparser": key in parser_mods, "ctxs": ctxs}
 
     for e in elems:
         seen[e["key"]] += 1
@@ -73,6 +82,10 @@ def main(tier):
         labels.append(("synkey", k))
 
     eff = {e["key"]: e["arity"] for e in elems}  # dict semantics: the last duplicate wins
+    for k in list(eff):  # the arity the transpiler actually sees (runtime table)
+        r = EL.elements.get(k, (None, None))[1]
+        if isinstance(r, int):
+            eff[k] = r
     modkeys = set(m["key"] for m in mods) | parser_mods
     for i, d in enumerate(docs):
         k = "\n" if d["key"] == "␤" else d["key"]
